@@ -725,7 +725,7 @@ Proof.
       [eapply GenF_trans; [apply (GenF_op_trans ns)|eapply GenF_trans; [apply (GenF_op_place (op_trans ns))|exact G13]]|].
     intros j Hj. cbn beta. unfold fnil. cbn [app]. rewrite !app_nil_r.
     assert (Ee : Nat.eqb j sync = false) by (apply Nat.eqb_neq; lia). rewrite Ee. cbn [app].
-    split; [reflexivity|]. split; reflexivity.
+    rewrite ?app_nil_r. split; [reflexivity|]. split; reflexivity.
   - unfold ns3, pos_of in *. autorewrite with netops. rewrite P2. unfold adv_l, adv, q, par_pos.
     cbn [pp pt pa]. rewrite nplaces_par, ntrans_par, napis_par. f_equal; lia.
   - destruct Ok2 as [Hcb2 Hfr2]. unfold ns3. split; autorewrite with netops; assumption.
@@ -769,3 +769,151 @@ Proof.
   apply gen_block_go; try assumption; [|reflexivity].
   apply Forall_forall. intros s _. apply gen_ok.
 Qed.
+
+(* =========================================================================== *)
+(* (A) the generator on a program = the walk over its unfolding                 *)
+(* =========================================================================== *)
+
+(* named copies of the local fixpoints of generate_statements / generate_stmt / unfold_stmt *)
+Section Copies.
+  Variable tasks : list task.
+  Section GS.
+    Variables (f' ctx : nat) (tn : name) (pre : list nat) (n first last : nat) (in_loop : bool).
+    Fixpoint gs_go (i : nat) (l : list stmt) (prev : nat) (acc : list nat) : NetModel.N (list nat) :=
+      match l with
+      | [] => nret acc
+      | s :: r =>
+        cur <~ (if Nat.ltb 1 n
+                then (if Nat.ltb i (n - 1) then create_transition else nret last)
+                else nret last) ;;
+        let prev' := if Nat.ltb 1 n then prev else first in
+        ex <~ generate_stmt tasks f' ctx tn (pre ++ [i]) s prev' cur in_loop ;;
+        gs_go (S i) r cur ex
+      end.
+  End GS.
+  Section GC.
+    Variables (f' ctx : nat) (tn : name) (path : list nat) (t1 sync : nat) (in_loop : bool).
+    Fixpoint gp_calls (i : nat) (l : list call) : NetModel.N unit :=
+      match l with
+      | [] => nret tt
+      | c :: r => generate_task_call tasks f' c (site_of tn (path ++ [i])) ctx t1 sync in_loop ;;~ gp_calls (S i) r
+      end.
+  End GC.
+  Section UB.
+    Variables (f : nat) (tn : name).
+    Fixpoint ucall_blk (i : nat) (ss : list stmt) : res (list xstmt) :=
+      match ss with
+      | [] => Ok []
+      | s1 :: r =>
+        rbind (unfold_stmt tasks f tn [i] s1) (fun x =>
+        rbind (ucall_blk (S i) r) (fun xs => Ok (x :: xs)))
+      end.
+  End UB.
+  Definition udo_call (f : nat) (tn : name) (pth : list nat) (c : call) : res xstmt :=
+    match find_task (c_name c) tasks with
+    | None => Exn KeyError
+    | Some t =>
+      rbind (ucall_blk f (t_name t) 0 (t_body t))
+            (fun body => Ok (XCall (c_name c) {| st_task := tn; st_path := pth |} (c_ins c) body))
+    end.
+  Section UC.
+    Variables (f : nat) (tn : name) (path : list nat).
+    Fixpoint ucalls (i : nat) (l : list call) : res (list xstmt) :=
+      match l with
+      | [] => Ok []
+      | c :: r =>
+        rbind (udo_call f tn (path ++ [i]) c) (fun x =>
+        rbind (ucalls (S i) r) (fun xs => Ok (x :: xs)))
+      end.
+  End UC.
+
+  Lemma generate_statements_S : forall f' ctx tn pre ss first last in_loop,
+      generate_statements tasks (S f') ctx tn pre ss first last in_loop
+      = gs_go f' ctx tn pre (List.length ss) first last in_loop 0 ss first [].
+  Proof. reflexivity. Qed.
+
+  Lemma generate_stmt_S_service : forall f' ctx tn path n ins o t1 t2 il,
+      generate_stmt tasks (S f') ctx tn path (SService n ins o) t1 t2 il
+      = generate_service n ins (site_of tn path) ctx t1 t2 il.
+  Proof. reflexivity. Qed.
+  Lemma generate_stmt_S_call : forall f' ctx tn path c t1 t2 il,
+      generate_stmt tasks (S f') ctx tn path (SCall c) t1 t2 il
+      = generate_task_call tasks f' c (site_of tn path) ctx t1 t2 il.
+  Proof. reflexivity. Qed.
+  Lemma generate_stmt_S_par : forall f' ctx tn path cs t1 t2 il,
+      generate_stmt tasks (S f') ctx tn path (SParallel cs) t1 t2 il
+      = (sync <~ create_transition ;;
+         pfin <~ create_place ;;
+         gp_calls f' ctx tn path t1 sync il 0 cs ;;~
+         add_output pfin sync ;;~
+         add_input pfin t2 ;;~
+         nret [sync])%net.
+  Proof. reflexivity. Qed.
+  Lemma generate_task_call_S : forall f' c at_ ctx t1 t2 il,
+      generate_task_call tasks (S f') c at_ ctx t1 t2 il
+      = match find_task (c_name c) tasks with
+        | None => nfail (Exn KeyError)
+        | Some t =>
+          (u <~ fresh_uuid ;;
+           a <~ new_api {| a_is_task := true; a_name := c_name c; a_site := at_; a_uuid := u; a_ctx := Some ctx;
+                           a_in_loop := il; a_params := c_ins c; a_src := c_ins c; a_has_call := true |} ;;
+           add_callback t1 (CbTS a) ;;~
+           ex <~ generate_statements tasks f' a (t_name t) [] (t_body t) t1 t2 il ;;
+           nfor ex (fun e => add_callback e (CbTF a)) ;;~
+           nret ex)%net
+        end.
+  Proof. reflexivity. Qed.
+
+  Lemma unfold_stmt_S_service : forall f' tn path n ins o,
+      unfold_stmt tasks (S f') tn path (SService n ins o) = Ok (XService n {| st_task := tn; st_path := path |} ins).
+  Proof. reflexivity. Qed.
+  Lemma unfold_stmt_S_call : forall f' tn path c,
+      unfold_stmt tasks (S f') tn path (SCall c) = udo_call f' tn path c.
+  Proof. reflexivity. Qed.
+  Lemma unfold_stmt_S_par : forall f' tn path cs,
+      unfold_stmt tasks (S f') tn path (SParallel cs)
+      = rbind (ucalls f' tn path 0 cs) (fun bs => Ok (XParallel bs)).
+  Proof. reflexivity. Qed.
+  Lemma unfold_program_eq : forall f,
+      unfold_program tasks f =
+      match find_task production_task tasks with
+      | None => Exn KeyError
+      | Some t => ucall_blk f production_task 0 (t_body t)
+      end.
+  Proof. reflexivity. Qed.
+End Copies.
+
+Lemma rbind_ok_inv : forall A B (r : res A) (f : A -> res B) y,
+    rbind r f = Ok y -> exists a, r = Ok a /\ f a = Ok y.
+Proof. intros A B [a| | |] f y H; try discriminate H. exists a. split; [reflexivity|exact H]. Qed.
+
+(* only Service / Call / Parallel unfold into the fragment *)
+Lemma unfold_frag_shape : forall tasks f' tn path s x,
+    unfold_stmt tasks (S f') tn path s = Ok x -> frag x = true ->
+    (exists n ins o, s = SService n ins o) \/ (exists c, s = SCall c) \/ (exists cs, s = SParallel cs).
+Proof.
+  intros tasks f' tn path s x H Hf. destruct s as [n ins o|c|cs|e body|par v lim body|e p fl].
+  - left. eauto.
+  - right. left. eauto.
+  - right. right. eauto.
+  - exfalso. cbn [unfold_stmt] in H. apply rbind_ok_inv in H. destruct H as (b & _ & H). inversion H; subst. discriminate Hf.
+  - exfalso. cbn [unfold_stmt] in H. destruct par.
+    + destruct body as [|[ | | | | | ] [|]]; try discriminate H.
+      apply rbind_ok_inv in H. destruct H as (b & _ & H). inversion H; subst. discriminate Hf.
+    + apply rbind_ok_inv in H. destruct H as (b & _ & H). inversion H; subst. discriminate Hf.
+  - exfalso. cbn [unfold_stmt] in H. apply rbind_ok_inv in H. destruct H as (b & _ & H).
+    apply rbind_ok_inv in H. destruct H as (b2 & _ & H). inversion H; subst. discriminate Hf.
+Qed.
+
+(* generator fuel that suffices for a component *)
+Fixpoint need (s : xstmt) : nat :=
+  match s with
+  | XService _ _ _ => 1
+  | XCall _ _ _ body => 3 + list_max (map need body)
+  | XParallel bs => 1 + list_max (map need bs)
+  | _ => 0
+  end.
+Definition need_l (l : list xstmt) : nat := list_max (map need l).
+
+Lemma need_l_cons : forall x l, need_l (x :: l) = Nat.max (need x) (need_l l).
+Proof. reflexivity. Qed.
